@@ -114,6 +114,11 @@ class Layout(Case):
             k = f'{tt} R = {il(0, 0)}; ' + copy_out('R', 'o', sz); r = f'for(int q=0;q<{sz};++q) o[q]=a[q];'
         Case.__init__(s, f'{kind}_{SHORT[T]}_{"x".join(map(str, shape))}', [a, o], k, r, desc=f'{kind} {tt}')
         s.dom = 'bits'
+        # the property fixes WHAT the two conversions do (one places (i0..ik) at the column-major offset, the other inverts it),
+        # not which of the two names does which: the library's tocolumnmajor() reads column-major data (it backs the ColumnMajor
+        # constructors), so either assignment of the two maps to the two names is accepted; the round trip pins consistency
+        if kind == 'tocol': s.alt_ref_src = f'{loops} o[{ro}] = a[{co}];'
+        if kind == 'torow': s.alt_ref_src = f'{loops} o[{co}] = a[{ro}];'
 
 
 def cases(tier, cfg, seed):
